@@ -53,6 +53,12 @@ def cases(tier, seed):
             if cfg == 'default' and t[4] > 300:
                 continue
             out.append((t, cfg, seed))
+    # E2 layer: ONE model object fitted on another table with the same column names (other dependence, other marginals),
+    # sampled, then fitted on this table: the sample must follow the LAST fit
+    for cfg in ('default', 'gaussian-class', 'dict'):
+        for t in tables.table_zoo(tier):
+            if t[4] <= 300 and t[0] <= 4:
+                out.append((t, cfg, seed, 'refit'))
     out.sort(key=lambda c: c[1] not in ('default', 'kde-instance', 'dict'))
     return out
 
@@ -70,19 +76,31 @@ def lattice_normal(C, n=NSCRIPT):
 
 def run_case(case):
     from mc.ref.kendall import tau_b
-    t, cfg, seed = case
+    t, cfg, seed = case[:3]
+    hist = case[3] if len(case) > 3 else 'fresh'
     r = engine.new_result()
-    r.state((t, cfg))
+    r.state((t, cfg, hist))
     r.nontriv()
     df, info = tables.gaussian_copula_table(t, A.shift_from_seed(seed))
     cols = list(df.columns)
     d = len(cols)
     n = len(df)
-    tag = f'table {t}, config {cfg}'
+    tag = f'table {t}, config {cfg}' + (' (object previously fitted on another table and sampled)' if hist == 'refit' else '')
     sig = 'C01'
     r.tr()
     try:
-        gm = tables.fit_gm(df, cfg)
+        if hist == 'refit':
+            other = (t[0], 'equi+' if t[1] != 'equi+' else 'ar1', 'normal' if t[2] != 'normal' else 'rotated', (), 30, t[5])
+            df0, _ = tables.gaussian_copula_table(other)
+            df0.columns = cols
+            gm = tables.fit_gm(df0, cfg)
+            gm.sample(3)
+            gm.sample(2, conditions={cols[0]: float(df0.iloc[0, 0])})
+            gm.fit(df.copy())
+            r.hit('refit-history')
+            r.tr(3)
+        else:
+            gm = tables.fit_gm(df, cfg)
     except Exception as e:
         r.violation(f'{sig}:fit-raises:{type(e).__name__}', f'{tag}: fit raised {type(e).__name__}: {e}', case=case)
         return r
